@@ -84,7 +84,16 @@ def main():
     gate = C.coq_gate()
     if gate:
         broken.append({"kind": "gate", "detail": gate[:10]})
-    if hasattr(mod, "pre_build"):
+    # re-translate every source file whose generated definitions this property's theorems depend on
+    try:
+        import regen_closure
+
+        for gname, ok_, msg_ in regen_closure.run_for(pid):
+            if not ok_:
+                broken.append({"kind": "translator", "detail": "Gen/%s.v: the translator refused the current source: %s" % (gname, msg_)})
+    except Exception as e:  # noqa: BLE001
+        broken.append({"kind": "translator", "detail": "%s: %s" % (type(e).__name__, e)})
+    if hasattr(mod, "pre_build") and not any(b["kind"] == "translator" for b in broken):
         try:
             mod.pre_build(ctx)
         except Exception as e:  # noqa: BLE001
